@@ -50,6 +50,43 @@ Proof.
   apply (nth_error_nth' _ 0 Hlen).
 Qed.
 
+(* the column a condition watches is looked up BY NAME in the model that polls it: it is the first position
+   of the name in that model's own list (phases, or elements for a composition condition), whatever any
+   other model lists; no name = column 0 *)
+Lemma index_of_spec s l p : index_of s l = Some p ->
+  nth_error l p = Some s /\ forall j, (j < p)%nat -> nth_error l j <> Some s.
+Proof.
+  revert p. induction l as [|x l IH]; intros p Hi; simpl in Hi; [discriminate|].
+  destruct (String.eqb x s) eqn:E.
+  - inversion Hi; subst p. apply String.eqb_eq in E. subst x. split; [reflexivity | intros j Hj; lia].
+  - destruct (index_of s l) as [p'|]; [|discriminate]. simpl in Hi. inversion Hi; subst p.
+    destruct (IH p' eq_refl) as (H1 & H2). split; [exact H1|].
+    intros [|j] Hj; simpl.
+    + intros Hx. inversion Hx. subst x. rewrite String.eqb_refl in E. discriminate.
+    + apply H2. lia.
+Qed.
+
+Definition name_list (nm : names) (c : condR) : list string :=
+  match c_q Rops c with Composition => n_elements nm | _ => n_phases nm end.
+
+Lemma selection_by_name nm (c : condR) :
+  match c_sel Rops c with
+  | None => sel_index Rops nm c = Some 0%nat
+  | Some s => forall p, sel_index Rops nm c = Some p ->
+                nth_error (name_list nm c) p = Some s /\
+                forall j, (j < p)%nat -> nth_error (name_list nm c) j <> Some s
+  end.
+Proof.
+  unfold sel_index, name_list. destruct (c_sel Rops c) as [s|]; [|reflexivity].
+  intros p Hp. apply index_of_spec. exact Hp.
+Qed.
+
+(* polling reads that column of the current row of the polling model's history *)
+Lemma poll_column nm (c : condR) H n p r :
+  sel_index Rops nm c = Some p -> nth_error H n = Some r ->
+  poll Rops nm c H n = nth_error (column Rops (c_q Rops c) r) p.
+Proof. intros Hs Hr. unfold poll. rewrite Hs, Hr. reflexivity. Qed.
+
 (* the time a condition reports when it is first found to hold at step n (n = index of the last
    recorded row): the previous recorded time when the quantity already satisfied the inequality
    there, else the abscissa at which the chord through (t_{n-1}, x_{n-1}), (t_n, x_n) meets the
